@@ -64,6 +64,13 @@ Theorem C20_copy_loops_safe : copy_loops_safe_statement.
 Proof. exact copy_loops_safe_proof. Qed.
 Print Assumptions C20_copy_loops_safe.
 
+(* ... and tj3EncodeYUVPlanes8 writes every sample position of the plane: the image produced has exactly pw x ph samples *)
+Theorem C20_encode_writes_whole_plane : forall strides stride i w h s r c,
+  valid_samp s -> valid_dim w -> valid_dim h -> 0 <= i < 3 -> 0 <= r < spec_ph i h s -> 0 <= c < spec_pw i w s ->
+  exists l, enc_access strides stride i w h s = Some l /\ In (r * enc_rowstep strides stride (spec_pw i w s) + c) l.
+Proof. exact enc_access_complete. Qed.
+Print Assumptions C20_encode_writes_whole_plane.
+
 (* that extent is exactly the tj3YUVPlaneSize bytes starting at the lowest-addressed row *)
 Theorem C20_extent_is_planesize : forall ulbits szbits strides stride i w h s,
   valid_abi ulbits szbits -> valid_samp s -> valid_dim w -> valid_dim h -> 0 <= i < ncomp s -> INT_MIN < stride <= INT_MAX ->
